@@ -59,10 +59,10 @@ class Mission:
     def gc_distance(self) -> float:
         """Great circle distance between departure and arrival positions (m)."""
         return GEOD.inv(
-            self.origin_position.latitude,
             self.origin_position.longitude,
-            self.destination_position.latitude,
+            self.origin_position.latitude,
             self.destination_position.longitude,
+            self.destination_position.latitude,
         )[2]
 
     @property
